@@ -462,6 +462,9 @@ theorem budget_monotone_std (cfg : Cfg) (fs : FS) (fuel : Nat) (src : Bytes) (li
   · exact absurd h (hn w)
   · exact h
 
+/-- **C11, C15 (what the driver computes).** `runStd` — the function behind every `render` case line, with the two default
+    budgets — when it gives an answer, gives the answer of every run with larger budgets: the defaults limit which inputs
+    the model binary answers, never what the answer is. -/
 theorem budget_monotone_runStd (cfg : Cfg) (fs : FS) (src : Bytes) (line : Nat) (env : Env) (n' m : Int)
     (hn' : 1000000 ≤ n') (hm : cfg.budget ≤ m) (hn : ∀ w, runStd cfg fs src line env ≠ .unmodelled w) :
     run (stdPrimsB n') stdOut { cfg with budget := m } fs maxIncludeDepth src line env = runStd cfg fs src line env :=
